@@ -102,3 +102,11 @@ Definition scope_spec (t : pterm) : option term :=
 (* what the parser's own stages produce before scoping (for the comparison) *)
 Definition syntax_tree (toks : list ptok) : option pterm :=
   match parse_stage1 toks true with (S1Tree t, _, _) => Some (reassociate t) | _ => None end.
+
+(* re-parsing a token slice in a given scope (a stack of names, innermost first): used by the C15
+   oracle "the text of a reported range, parsed in the scope of that node, is that node" *)
+Definition reparse_in_scope (toks : list ptok) (scope : list name) : option term :=
+  match syntax_tree toks with
+  | None => None
+  | Some t => match sresolve (S (psize t)) scope t 0 with Some (r, _) => Some r | None => None end
+  end.
